@@ -353,9 +353,9 @@ int main(int argc, char **argv) {
 	if (!init_libTMCG()) { fprintf(stderr, "init_libTMCG failed\n"); return 2; }
 	long k = 0;
 	Group S = make_group(512, 160, 18);
-	part_lib(k, S, ctx.quick() ? 2 : 6);
-	part_curious(k, S, ctx.quick() ? 2 : 6);
-	part_malformed(k, S, ctx.quick() ? 2 : 6);
+	part_lib(k, S, ctx.quick() ? 2 : 4);
+	part_curious(k, S, ctx.quick() ? 2 : 4);
+	part_malformed(k, S, ctx.quick() ? 2 : 4);
 	if (ctx.thorough()) {
 		Group D = make_group(1024, 256, 19);
 		part_lib(k, D, 1);
